@@ -28,20 +28,21 @@ Fs == ("/w/service.yaml" :> [kind |-> "file", docs |-> <<M("name" :> S("svc") @@
    @@ ("/w/service.test.toml" :> [kind |-> "file", docs |-> <<M("port" :> I("8080") @@ "debug" :> True)>>])
    @@ ("/w/broken.yaml" :> [kind |-> "file", docs |-> <<M("need" :> S("$required"))>>])
    @@ ("/w/multi.json" :> [kind |-> "file", docs |-> <<Doc("a", I("1")), Doc("b", L(<<S("x"), S("")>>))>>])
+   @@ ("/w/sub/service.yaml" :> [kind |-> "file", docs |-> <<M("name" :> S("sub") @@ "zone" :> I("2"))>>])   \* same base name, another directory
    @@ ("/w/notes.txt" :> [kind |-> "other"])
    @@ ("/w/conf.ini" :> [kind |-> "other"])
 
 (* flags, --opt=value, words, non-bkl files, layer files, virtual names, unsupported extensions, failing layers *)
 ArgKinds == {"-f", "--opt=service.yaml", "get", "notes.txt", "service.yaml", "service.test.toml",
              "service.test.json", "service.yml", "conf.ini", "broken.yaml", "multi.yaml", "missing.yaml",
-             "--", "service.test.json-pretty", "./service.yaml", "multi.jsonl"}
+             "--", "service.test.json-pretty", "./service.yaml", "multi.jsonl", "sub/service.yaml"}
 
 RECURSIVE Vectors(_)
 Vectors(n) == IF n = 0 THEN {<<>>} ELSE {Append(v, a) : v \in Vectors(n - 1), a \in ArgKinds}
 AllVectors == UNION {Vectors(n) : n \in 0..MaxArgs}
 
 IsBklFile(a) == a \in {"service.yaml", "service.test.toml", "service.test.json", "service.yml", "broken.yaml",
-                       "multi.yaml", "service.test.json-pretty", "./service.yaml", "multi.jsonl"}
+                       "multi.yaml", "service.test.json-pretty", "./service.yaml", "multi.jsonl", "sub/service.yaml"}
 Law(v) ==
   LET w == WrapOp(Fs, W, v, <<>>) IN
   /\ w.exec = ~\E i \in DOMAIN v : v[i] = "broken.yaml"
